@@ -676,7 +676,7 @@ def r6_damping_and_threshold(rule, root=None):
     # thresholds on the error
     n = 0
     for b in A.find(view, "Binary"):
-        if b["op"] not in ("==", "<=", "<", ">=", ">"):
+        if b["op"] not in ("==", "!=", "<=", "<", ">=", ">"):
             continue
         l_, r_ = A.strip(b["left"]), A.strip(b["right"])
         names = (A.ident(l_), A.ident(r_))
